@@ -366,6 +366,7 @@ archive_read_format_cpio_read_header(struct archive_read *a,
 	size_t namelength;
 	size_t name_pad;
 	int r;
+	int is_trailer;
 
 	cpio = (struct cpio *)(a->format->data);
 	sconv = cpio->opt_sconv;
@@ -401,6 +402,11 @@ archive_read_format_cpio_read_header(struct archive_read *a,
 		r = ARCHIVE_WARN;
 	}
 	cpio->entry_offset = 0;
+
+	/* Compare name to "TRAILER!!!" to test for end-of-archive,
+	 * while the name is still in the read-ahead window. */
+	is_trailer = (namelength == 11 &&
+	    strncmp((const char *)h, "TRAILER!!!", 10) == 0);
 
 	__archive_read_consume(a, namelength + name_pad);
 
@@ -438,9 +444,7 @@ archive_read_format_cpio_read_header(struct archive_read *a,
 	 * and parse it as a Solaris-style ACL, then read the next
 	 * header.  XXX */
 
-	/* Compare name to "TRAILER!!!" to test for end-of-archive. */
-	if (namelength == 11 && strncmp((const char *)h, "TRAILER!!!",
-	    10) == 0) {
+	if (is_trailer) {
 		/* TODO: Store file location of start of block. */
 		archive_clear_error(&a->archive);
 		return (ARCHIVE_EOF);
